@@ -47,6 +47,11 @@ type HarnessResult struct {
 	Truncated           bool
 	Observations        map[string]int
 	DistinctPCs         int
+	// cross-solver re-check of sampled `unsat` answers to assertion queries (cvc5 and z3 5.1 on the standalone script)
+	CrossChecked  int
+	CrossAgreed   int
+	CrossUnknown  int
+	CrossDisagree []string
 }
 
 type Explorer struct {
@@ -66,6 +71,50 @@ type Explorer struct {
 	SolverKind     string
 	QueryTimeoutMs int
 	dumpN          int
+	CrossBudget    int            // how many unsat assertion answers to re-ask other solvers (per harness)
+	crossSeen      map[string]int // per assertion site
+}
+
+// crossCheck re-asks a second and a third solver an assertion query that the main solver answered `unsat`: the first
+// answer of every assertion site, then every 50th, within the harness budget. A `sat` from another solver is reported
+// and leaves the assertion undischarged.
+func (e *Explorer) crossCheck(m *Machine, neg *smt.Term, site string) bool {
+	e.mu.Lock()
+	if e.crossSeen == nil {
+		e.crossSeen = map[string]int{}
+	}
+	n := e.crossSeen[site]
+	e.crossSeen[site] = n + 1
+	take := (n == 0 || n%50 == 0) && e.Res.CrossChecked < e.CrossBudget
+	if take {
+		e.Res.CrossChecked++
+	}
+	e.mu.Unlock()
+	if !take {
+		return true
+	}
+	agreed, disagreed := 0, ""
+	for _, kind := range []string{"cvc5", "z3-new"} {
+		r, _ := smt.RunScript(kind, m.Sol.Script(neg, kind), 20000)
+		switch r {
+		case smt.Unsat:
+			agreed++
+		case smt.Sat:
+			disagreed = kind
+		}
+	}
+	e.mu.Lock()
+	defer e.mu.Unlock()
+	switch {
+	case disagreed != "":
+		e.Res.CrossDisagree = append(e.Res.CrossDisagree, fmt.Sprintf("%s: z3 says unsat, %s says sat", site, disagreed))
+		return false
+	case agreed > 0:
+		e.Res.CrossAgreed++
+	default:
+		e.Res.CrossUnknown++
+	}
+	return true
 }
 
 func (e *Explorer) push(p []Decision) {
@@ -456,6 +505,11 @@ func (m *Machine) assertCond(cond *smt.Term, msg string, ins ssa.Instruction) {
 	}
 	switch r {
 	case smt.Unsat:
+		if m.Ex.CrossBudget > 0 && !m.Ex.crossCheck(m, neg, msg) {
+			m.Res.Undischarged = append(m.Res.Undischarged, fmt.Sprintf("assert %q at %s: solvers disagree (unsat vs sat)", msg, m.pos(ins)))
+			m.assume(cond)
+			return
+		}
 		m.Res.Discharged++
 		return
 	case smt.Unknown:
